@@ -57,6 +57,15 @@ func drawFaultCase(t *rapid.T) *core.Case {
 	if os.Getenv("VERIF_TIER") == "thorough" {
 		c.Mode = "thorough"
 	}
+	if rapid.IntRange(0, 5).Draw(t, "distributed") == 0 {
+		// the plan of a distributed engine: coalesce over remote executions, one partition each
+		c.NParts = rapid.IntRange(2, 3).Draw(t, "nparts")
+		c.Parts = make([]int, len(c.Series))
+		for i := range c.Parts {
+			c.Parts[i] = rapid.IntRange(0, c.NParts-1).Draw(t, "part")
+		}
+		c.Note += " dist"
+	}
 	return c
 }
 
@@ -93,7 +102,7 @@ func TestC13(t *testing.T) {
 			return c
 		}
 		c := drawFaultCase(t)
-		c.Note = rapid.SampledFrom([]string{"", "", "panic=str", "panic=err"}).Draw(t, "panicvalue")
+		c.Note += " " + rapid.SampledFrom([]string{"", "", "panic=str", "panic=err"}).Draw(t, "panicvalue")
 		return c
 	})
 }
@@ -113,7 +122,7 @@ func TestC17(t *testing.T) {
 		c := drawFaultCase(t)
 		c.Fallback = rapid.IntRange(0, 4).Draw(t, "fallback") == 0
 		if rapid.IntRange(0, 2).Draw(t, "honourctx") == 0 {
-			c.Note = "honourctx"
+			c.Note += " honourctx"
 		}
 		return c
 	})
@@ -127,7 +136,7 @@ func TestC14(t *testing.T) {
 			c.End = c.Start + int64(rapid.IntRange(31, 70).Draw(t, "moresteps"))*c.Step
 		}
 		if rapid.IntRange(0, 3).Draw(t, "deadline") == 0 {
-			c.Note = "deadline"
+			c.Note += " deadline"
 		}
 		if rapid.IntRange(0, 1).Draw(t, "honourctx") == 0 {
 			// a storage that fails Querier()/Select with the context's error once it is done
